@@ -17,6 +17,7 @@ typedef struct { rt_row_t *row; int n; int *hash; int hsize; } rt_csv_t;
 static const char *rt_repo(void) { const char *r = getenv("REPO"); return (r && r[0]) ? r : "/repo"; }
 
 /* minimal RFC 4180 reader: quoted fields, "" escapes, LF or CRLF */
+static int RT_MALFORMED; static int RT_MALFORMED_LINE; static char RT_MALFORMED_FILE[256];   /* quoted fields with a bare '"' inside: strict CSV readers (Text::CSV) stop there */
 static int rt_read_csv(const char *path, rt_csv_t *t, int skip_header) {
     FILE *f = fopen(path, "rb"); if (!f) { perror(path); return -1; }
     fseek(f, 0, SEEK_END); long sz = ftell(f); fseek(f, 0, SEEK_SET);
@@ -31,7 +32,11 @@ static int rt_read_csv(const char *path, rt_csv_t *t, int skip_header) {
                 p++; start = out = p;
                 for (;;) {
                     if (*p == 0) break;
-                    if (*p == '"') { if (p[1] == '"') { *out++ = '"'; p += 2; continue; } p++; break; }
+                    if (*p == '"') { if (p[1] == '"') { *out++ = '"'; p += 2; continue; }
+                        if (p[1] == ',' || p[1] == '\n' || p[1] == '\r' || p[1] == 0) { p++; break; }
+                        /* a bare quote inside a quoted field: keep it as a character (lenient), remember the record */
+                        if (!RT_MALFORMED) { RT_MALFORMED_LINE = line + 1; snprintf(RT_MALFORMED_FILE, sizeof RT_MALFORMED_FILE, "%s", path); } RT_MALFORMED++;
+                        *out++ = *p++; continue; }
                     *out++ = *p++;
                 }
             } else { while (*p && *p != ',' && *p != '\n' && *p != '\r') p++; out = p; }
